@@ -3,11 +3,14 @@ package e1
 import (
 	"fmt"
 	"os"
+	"runtime"
 	"testing"
+	"testing/synctest"
 	"time"
 
 	"github.com/btcsuite/btcd/chaincfg/v2"
 	"github.com/btcsuite/btcd/chainhash/v2"
+	"github.com/btcsuite/btcd/wire/v2"
 
 	"verif/sim/chainmodel"
 	"verif/sim/core"
@@ -317,6 +320,18 @@ func runHeaders(t *testing.T, rc *core.RunCtx) {
 		}
 	}()
 
+	// Parked instants (hook H7): in one run in three the block handler is
+	// held between two steps of one chain change (headers stored but the tip
+	// not yet moved, old branch rolled back but the new one not yet written,
+	// between two blocks of one rollback) and everything the client reports
+	// is read at that very instant.
+	if tp.Chance(1, 3) {
+		for i, k := 0, 1+tp.Intn(3); i < k; i++ {
+			w.armYield(yieldSites[tp.Intn(3)], 1+tp.Intn(10), time.Duration(1+tp.Intn(2000))*time.Millisecond)
+		}
+		w.onParked = wt.instant
+	}
+
 	if adopt {
 		runAdopt(w, wt, plan, tips)
 		finishHeaders(w, wt, plan, adopt)
@@ -384,6 +399,8 @@ func runHeaders(t *testing.T, rc *core.RunCtx) {
 			p.disconnect("down")
 			pp := p
 			w.after(time.Duration(5+tp.Intn(120))*time.Second, func() { pp.setUp(true) })
+		case k < 94: // a lookup by hash racing the reorganisation that removes the block
+			w.readerRace(wt, p, plan, &tips)
 		default: // announce current tip by inv
 			p.announce(false, 1)
 		}
@@ -438,9 +455,11 @@ func runAdopt(w *World, wt *watcher, plan *chainPlan, tips []*chainmodel.Block) 
 				p.view.Height, short(p.view.Hash), p.view.CumWork.Cmp(wt.lastAdopt.CumWork), got.Height, short(got.Hash), want.Height, short(want.Hash))
 		}
 		wt.lastAdopt = got
+		p.hdrOfferBase = got
 		rc.Probe("adopt_" + what)
 	}
 	wt.lastAdopt = w.tree.Genesis
+	p.hdrOfferBase = w.tree.Genesis
 	expect("initial-sync")
 	steps := 1 + tp.Intn(5)
 	for i := 0; i < steps; i++ {
@@ -536,3 +555,70 @@ func minInt(a, b int) int {
 
 var _ = fmt.Sprintf
 var _ chainhash.Hash
+
+// readerRace: a lookup by hash of a block that is being reorganised out,
+// interleaved with that reorganisation. The announcement of a heavier branch
+// is in flight; the simulator's own reader calls GetBlockHeader for a block of
+// the branch about to be displaced, and at the end of the reader's first
+// database transaction (hookDB) the announcement is handed to the client and
+// the reader yields the processor until the block handler has finished the
+// reorganisation or cannot get on (it waits for the store lock the reader
+// holds). Whatever the reader then gets must be the header it asked for, or an
+// error.
+func (w *World) readerRace(wt *watcher, p *SimPeer, plan *chainPlan, tips *[]*chainmodel.Block) {
+	rc, tp := w.rc, w.tp
+	synctest.Wait()
+	if w.parkedAt() != "" || !p.connected() || !p.shook || !w.running {
+		return
+	}
+	if wt.changed() {
+		wt.check()
+	}
+	if wt.prev == nil {
+		return
+	}
+	cur := wt.prev.tipBlock()
+	if cur == nil || cur.Tainted || cur.Height < 1 {
+		return
+	}
+	d := 1 + tp.Intn(minInt(3, int(cur.Height)))
+	base := cur.Ancestor(cur.Height - int32(d))
+	nv := w.mineChain(base, d+1+tp.Intn(2), time.Minute, time.Now().Add(-5*time.Second), 0, "", &plan.salt, 0)
+	if nv.CumWork.Cmp(cur.CumWork) <= 0 || chainmodel.ValidateChain(w.params, nv.Headers(), time.Time{}) != nil {
+		return
+	}
+	*tips = append(*tips, nv)
+	p.setView(nv)
+	p.fhCache = nil
+	victim := cur.Ancestor(cur.Height - int32(tp.Intn(d)))
+	rc.Logf("t=%s event: reader race: %s announces a heavier branch from %d to %d while GetBlockHeader(%s, height %d) is under way",
+		w.clock(), p.addr.IP, base.Height, nv.Height, short(victim.Hash), victim.Height)
+	p.announce(true, int(nv.Height-base.Height))
+	before := w.yieldCount("headers.beforeTipUpdate")
+	spins := 0
+	w.armDB(func(string) {
+		w.flushEvents(5 * time.Second)
+		for spins = 0; spins < 20000 && w.yieldCount("headers.beforeTipUpdate") == before; spins++ {
+			runtime.Gosched()
+		}
+	})
+	type res struct {
+		hdr *wire.BlockHeader
+		err error
+	}
+	ch := make(chan res, 1)
+	go func() {
+		h, err := w.cs.GetBlockHeader(&victim.Hash)
+		ch <- res{h, err}
+	}()
+	r := <-ch
+	w.armDB(nil)
+	rc.Probe("reader_race")
+	if w.yieldCount("headers.beforeTipUpdate") != before && spins < 20000 {
+		rc.Probe("reader_race_reorg_finished_inside_lookup")
+	}
+	if r.err == nil && r.hdr.BlockHash() != victim.Hash {
+		wt.fail("lookup-disagree", map[string]string{"by": "hash-during-reorg"},
+			"GetBlockHeader(%s) (height %d, being reorganised out) returned the header %s", short(victim.Hash), victim.Height, short(r.hdr.BlockHash()))
+	}
+}
